@@ -39,6 +39,7 @@ package logging
 //@   ensures MuInv()                                                             #mutex-agreement-kept
 
 //@ func (*MemCore).With(mc, fields) returns (c)
+//@   locals (clone, i)
 //@   props C20
 //@   mode wrap
 //@   requires mc.mu != nil && mc.enc != nil && mc.r != nil && FamInv() && MuInv()
